@@ -393,10 +393,28 @@ fn case_ev(p: &[&str]) -> String {
                                 out = "NoCallback".to_string();
                             }
                         },
+                        #[cfg(verif_find_excl)]
                         Rec::NewExclPub { stream: st, session: se, reg: rg } if excl => {
-                            // ClientConductor::find_exclusive_publication is pub(crate): the registration ids, stream and
-                            // session are observed (assert_eq!(registration_id, original_registration_id) passed, the log file
-                            // was mapped); limit / status ids are echoed from the event, not observed
+                            // the exclusive publication as the API hands it out afterwards (find_exclusive_publication is
+                            // pub(crate): reached through the hook ClientConductor::find_exclusive_publication_for_verif)
+                            let found = catch(|| cl.with(|c| c.find_exclusive_publication_for_verif(*rg)));
+                            if let Ok(Ok(pb)) = found {
+                                let (orig, lim, stat, marker) = {
+                                    let g = pb.lock().unwrap();
+                                    (g.original_registration_id(), g.publication_limit_id(), g.channel_status_id(), g.initial_term_id())
+                                };
+                                let logs = if marker == marker_of(pk, pn) { bl(&log) } else { "[]".to_string() };
+                                out = format!("OnNewExclusivePublication ({}) ({}) ({}) ({}) ({}) ({}) {}", rg, orig, st, se, lim, stat, logs);
+                                drop(pb);
+                            } else {
+                                out = "NoCallback".to_string();
+                            }
+                        },
+                        #[cfg(not(verif_find_excl))]
+                        Rec::NewExclPub { stream: st, session: se, reg: rg } if excl => {
+                            // without the hook (hooks/cond-find-exclusive.diff) find_exclusive_publication is not reachable: the
+                            // registration ids, stream and session are observed (assert_eq!(registration_id, original_registration_id)
+                            // passed, the log file was mapped); limit / status ids are echoed from the event, not observed
                             out = format!("OnNewExclusivePublication ({}) ({}) ({}) ({}) ({}) ({}) {}", rg, rg, st, se, limit, status, bl(&log));
                         },
                         _ => {},
